@@ -33,11 +33,11 @@ type tickViolation struct {
 }
 
 type tickSection struct {
-	stats tickStats
-	mu    sync.Mutex
-	viol  []tickViolation
-	table *tickTable
-	x96   []*big.Int
+	stats      tickStats
+	mu         sync.Mutex
+	viol       []tickViolation
+	table      *tickTable
+	x96        []*big.Int
 	maxRelDiff string
 }
 
